@@ -203,6 +203,10 @@ def report(pid, tier, seed, mod, cases, results, determinism, wall, write_eviden
         print("KNOWN-FINDING: property=%s %s [%s; %d failing comparisons]" % (pid, k["what"], key, n))
     # --- new violations: replay files, grouped per case
     os.makedirs(os.path.join(ROOT, "replays"), exist_ok=True)
+    if write_evidence:  # a full run supersedes the replay files of earlier runs of this property
+        for n in os.listdir(os.path.join(ROOT, "replays")):
+            if n.startswith(pid + "-"):
+                os.remove(os.path.join(ROOT, "replays", n))
     bycase = {}
     for v, _ in new:
         bycase.setdefault(v["case_key"], []).append(v)
